@@ -72,13 +72,23 @@ def signature_is_low_s_strict_der_and_valid(self: Any, hash: Bytes(len=32)):
             and ec.ecdsa_verify(ec.decode_point(self.pub), hash, *ec.parse_strict_der(result)))
 
 
+@contract('bitcoin.wallet:CKey.sign', name='signatures_low_s_strict_der_many', prop=P)
+def signatures_low_s_strict_der_many(self: Any, hash: Bytes(len=32)):
+    """BOUNDED (OpenSSL): the cheap half of the statement above (strict DER, S <= n/2, r and s in range) on many more
+    signatures - a shortcut that skips the low-S normalisation for rarely occurring encodings (short r) shows only in
+    about one signature in a few hundred"""
+    option(bounded=12000)
+    ensures(ec.parse_strict_der(result) is not None and 1 <= ec.parse_strict_der(result)[1] <= ec.N // 2
+            and 1 <= ec.parse_strict_der(result)[0] < ec.N)
+
+
 @contract('bitcoin.core.key:CPubKey.verify', name='verify_matches_reference', prop=P)
 def verify_matches_reference(self: Any, hash: Bytes(len=32), sig: Bytes):
     """BOUNDED (OpenSSL): for strictly DER signatures verification is true exactly when the reference ECDSA
     verification is (valid, other message, r or s equal to 0 or n, the n-s twin, random)"""
-    option(bounded=400)
-    requires(ec.parse_strict_der(sig) is not None and ec.decode_point(self) is not None)
-    ensures(result == ec.ecdsa_verify(ec.decode_point(self), hash, *ec.parse_strict_der(sig)))
+    option(bounded=500)
+    requires(ec.parse_strict_der(sig) is not None)
+    ensures(result is (ec.decode_point(self) is not None and ec.ecdsa_verify(ec.decode_point(self), hash, *ec.parse_strict_der(sig))))
 
 
 @contract('bitcoin.core.key:CPubKey.__new__', name='pubkey_validity_flags', prop=P)
@@ -134,7 +144,15 @@ def _gen_verify(rng):
     h = _digest(rng)
     k = rng.randrange(1, ec.N)
     r, s = ec.sign_nonce(d, h, k)
-    kind = rng.choice(['valid', 'valid', 'twin', 'othermsg', 'otherkey', 'r0', 's0', 'rn', 'sn', 'random', 'r+1', 'bigr'])
+    kind = rng.choice(['valid', 'valid', 'twin', 'othermsg', 'otherkey', 'r0', 's0', 'rn', 'sn', 'random', 'r+1', 'bigr',
+                       'offcurve', 'offcurve'])
+    if kind == 'offcurve':
+        # a well-sized key that is no curve point: nothing verifies under it, whatever the digest (OpenSSL reports an
+        # error, not "bad signature", for such a key)
+        pub = bytes(_gen_pubkey(rng, rng.choice(['offcurve_u', 'offcurve_c', 'xbig', 'badhybrid', 'random33', 'random65']))['buf']['__bytes__'])
+        h = rng.choice([bytes(32), bytes(32), _digest(rng)])
+        if rng.random() < 0.5:
+            r, s = rng.randrange(1, ec.N), rng.randrange(1, ec.N // 2)
     if kind == 'twin':
         s = ec.N - s
     elif kind == 'othermsg':
@@ -158,9 +176,9 @@ def _gen_verify(rng):
     return {'__build__': 'c13', '__kind__': 'verify', 'pub': _bj(pub), 'hash': _bj(h), 'sig': _bj(ec.der(r, s))}
 
 
-def _gen_pubkey(rng):
+def _gen_pubkey(rng, kind=None):
     pt = ec.mul(rng.randrange(1, ec.N), ec.G)
-    kind = rng.choice(['c', 'u', 'hybrid', 'badhybrid', 'offcurve_u', 'offcurve_c', 'xbig', 'prefix', 'random33', 'random65'])
+    kind = kind or rng.choice(['c', 'u', 'hybrid', 'badhybrid', 'offcurve_u', 'offcurve_c', 'xbig', 'prefix', 'random33', 'random65'])
     if kind == 'c':
         b = ec.encode_point(pt, True)
     elif kind == 'u':
@@ -192,6 +210,8 @@ _replay.GENERATORS.update({
                                              'compressed': rng.random() < 0.5},
     'signature_is_low_s_strict_der_and_valid': lambda rng: {'__build__': 'c13', '__kind__': 'sign', 'secret': _bj(_secret(rng)),
                                                             'compressed': rng.random() < 0.5, 'hash': _bj(_digest(rng))},
+    'signatures_low_s_strict_der_many': lambda rng: {'__build__': 'c13', '__kind__': 'sign', 'secret': _bj(_secret(rng)),
+                                                     'compressed': rng.random() < 0.5, 'hash': _bj(_digest(rng))},
     'verify_matches_reference': _gen_verify,
     'pubkey_validity_flags': _gen_pubkey,
 })
